@@ -52,9 +52,40 @@ pub mod collections {
     #[verifier::external_body]
     #[verifier::accept_recursive_types(T)]
     pub struct HashSet<T> { v: Vec<T> }
-    /// `set` is what collecting the sequence `s` into a HashSet gives (relation left
-    /// uninterpreted except through the axioms used by index::ls' contract)
-    pub uninterp spec fn hashset_from<T>(set: HashSet<T>, s: Seq<T>) -> bool;
+    impl<T> View for HashSet<T> { type V = Seq<T>; uninterp spec fn view(&self) -> Seq<T>; }
+    /// the equality (PartialEq + a consistent Hash) the element type gives its HashSet
+    pub trait SpecEq { spec fn spec_eq(&self, other: &Self) -> bool; }
+    /// the elements of the set obtained by inserting `s` front to back, in the set's (unspecified
+    /// but, for one call, fixed) iteration order
+    pub uninterp spec fn hs_items<T>(s: Seq<T>) -> Seq<T>;
+    pub open spec fn first_occ<T: SpecEq>(s: Seq<T>, i: int) -> bool {
+        0 <= i < s.len() && forall|k: int| 0 <= k < i ==> !(#[trigger] s[k]).spec_eq(&s[i])
+    }
+    /// ASSUMED (HashSet::insert keeps the element already present): the set holds exactly the
+    /// first occurrence of every equivalence class, each once
+    #[verifier::external_body]
+    pub broadcast proof fn axiom_hs_items<T: SpecEq>(s: Seq<T>)
+        ensures
+            #![trigger hs_items(s)]
+            forall|j: int| 0 <= j < hs_items(s).len() ==> exists|i: int| first_occ(s, i) && (#[trigger] hs_items(s)[j]) == s[i],
+            forall|i: int| #![trigger first_occ(s, i)] first_occ(s, i) ==> exists|j: int| 0 <= j < hs_items(s).len() && #[trigger] hs_items(s)[j] == s[i],
+            forall|j1: int, j2: int| 0 <= j1 < j2 < hs_items(s).len() ==> !(#[trigger] hs_items(s)[j1].spec_eq(&hs_items(s)[j2])),
+    {}
+    /// what holds for every inserted element holds for every element of the set
+    pub proof fn lemma_hs_all<T: SpecEq>(s: Seq<T>, p: spec_fn(T) -> bool)
+        requires forall|k: int| 0 <= k < s.len() ==> p(#[trigger] s[k]),
+        ensures forall|j: int| 0 <= j < hs_items(s).len() ==> p(#[trigger] hs_items(s)[j]),
+    {
+        axiom_hs_items(s);
+        assert forall|j: int| 0 <= j < hs_items(s).len() implies p(#[trigger] hs_items(s)[j]) by {
+            let i = choose|i: int| first_occ(s, i) && hs_items(s)[j] == s[i];
+        }
+    }
+    pub open spec fn hashset_from<T>(set: HashSet<T>, s: Seq<T>) -> bool { set@ == hs_items(s) }
+    impl<T> crate::shims::iter::IntoIterShim<T> for HashSet<T> {
+        #[verifier::external_body]
+        fn into_iter_(self) -> (r: crate::shims::iter::Iter<T>) ensures r@.items == self@, !r@.endless { unimplemented!() }
+    }
 }
 pub mod hash {
     use vstd::prelude::*;
@@ -97,4 +128,7 @@ pub mod time {
         #[verifier::external_body]
         pub fn as_nanos(&self) -> (r: u128) requires self@ >= 0 ensures r == self@ { unimplemented!() }
     }
+}
+pub mod iter {
+    pub use crate::shims::iter::once;
 }
